@@ -3,14 +3,14 @@ import gens
 import vlib
 
 ID = "C03"
-LEAN_MODULES = ["LexVerif.Props.C03", "LexVerif.Props.TablesWrite", "LexVerif.Props.Literals.WriteIntegerAlgorithm", "LexVerif.Props.Literals.WriteIntegerCompact", "LexVerif.Props.Literals.WriteIntegerDecimal", "LexVerif.Props.Literals.WriteIntegerDigitCount", "LexVerif.Props.Literals.WriteIntegerJeaiii", "LexVerif.Props.Literals.WriteIntegerRadix", "LexVerif.Props.Literals.WriteIntegerWrite", "LexVerif.Props.Literals.WriteIntegerApi", "LexVerif.Props.Literals.UtilDiv128", "LexVerif.Props.Literals.UtilMul", "LexVerif.Props.Literals.UtilStep", "LexVerif.Props.Literals.UtilDigit", "LexVerif.Props.Literals.UtilConstants"]
+LEAN_MODULES = ["LexVerif.Props.C03", "LexVerif.Props.C03Tie", "LexVerif.Props.TablesWrite", "LexVerif.Props.Literals.WriteIntegerAlgorithm", "LexVerif.Props.Literals.WriteIntegerCompact", "LexVerif.Props.Literals.WriteIntegerDecimal", "LexVerif.Props.Literals.WriteIntegerDigitCount", "LexVerif.Props.Literals.WriteIntegerJeaiii", "LexVerif.Props.Literals.WriteIntegerRadix", "LexVerif.Props.Literals.WriteIntegerWrite", "LexVerif.Props.Literals.WriteIntegerApi", "LexVerif.Props.Literals.UtilDiv128", "LexVerif.Props.Literals.UtilMul", "LexVerif.Props.Literals.UtilStep", "LexVerif.Props.Literals.UtilDigit", "LexVerif.Props.Literals.UtilConstants"]
 GEN = ["write_tables", "literals"]
 TRUSTED = [
     "Lean 4.33.0 kernel; axioms of each theorem listed under coverage.theorems",
     "correspondence harness (harness/src/bin/run.rs) and generators (gens.py): differential testing, bounded by generator quality",
     "hand-written model Model.WriteInt tied to lexical-write-integer/src/*.rs, lexical-util/src/{div128,step,mul,constants}.rs "
     "by correspondence only (release-mode semantics; debug_assert!/overflow checks of debug builds are not modelled)",
-    "digit-pair tables enter the model through their closed form (Model.WriteInt.digitPairTable); equality with the compiled tables is a separate R obligation",
+    "digit-pair tables enter the model through their closed form (Model.WriteInt.digitPairTable); Props/C03Tie.tableGet_is_named_table proves it equal to the compiled tables",
 ]
 ASSUMPTIONS = ["usize = u64 (x86-64)", "rustc codegen is correct", "release profile (wrapping arithmetic)"]
 RULE = ("G-int-write generator: per (type, radix): every u8/i8 value (all radices) and every u16/i16 value (a few radices), "
@@ -18,11 +18,12 @@ RULE = ("G-int-write generator: per (type, radix): every u8/i8 value (all radice
         "for the 128-bit chunking, min/max, random values of every bit length; short buffers for the panic paths; "
         "non-trivial = result ok with at least one digit; distinct = distinct op lines")
 
-TECHNIQUE = "Lean 4 proof: model of compact.rs and the generic-radix algorithm.rs/digit_count.rs = canonical numeral, for every value; numeral theory (ofDigits/toDigits); digit-pair/step/div128 tables kernel-checked; decimal jeaiii paths by correspondence (exhaustive for 8/16-bit)"
-LEVEL_TEXT = ("Proved in Lean for every value: the canonical-numeral theory (ofDigits∘toDigits = id, digit bounds, no leading zero, length, uniqueness); the compact writer for all 12 types and radices; "
-              "the non-decimal radix path (digit_count exact, 4-2-1 digit-pair loop = toDigits, no FAULT) for all 64-bit-or-smaller types and 128-bit values below 2^64; all 35 digit-pair tables, u64_step, "
-              "div128 constants and the fast_digit_count table regenerated from the crate equal their closed forms. NOT proved: the decimal jeaiii writers and u128_divrem above 2^64 (full statement kept as a Prop); "
-              "these are covered by the correspondence run (all u8/i8/u16/i16 values exhaustively, boundary values of every branch, Display equality). Partial proof, stated as such.")
+TECHNIQUE = "Lean 4 proof: the model of every integer writer (compact.rs; algorithm.rs/digit_count.rs incl. algorithm_u128 with u128_divrem; decimal.rs/jeaiii.rs) = sign ++ canonical numeral, for every value of every type in every radix and feature set; numeral theory (ofDigits/toDigits); model constants equated with the tables/literals regenerated from the crate (C03Tie)"
+LEVEL_TEXT = ("Proved in Lean for every value (writeInt_correct_full_holds): all 12 integer types x every radix 2..36 x feature sets x both sign settings, buffer >= buffer_size_const: output = sign ++ canonical numeral at offset 0, count = its length, rest of buffer untouched, no FAULT/PANIC. "
+              "Built from: numeral theory; compact writer; 4-2-1 digit-pair loop = toDigits with exact digit counts (fast_log2, naive, chunked u128); u128_divrem = (n / r^step, n % r^step) for all 35 radices (mulhi = high word, Granlund-Montgomery identity, slow_u128_divrem loop invariant); "
+              "jeaiii: one fixed-point lemma per multiplier, every write_digits! arm, @10alex, comparison trees from_u8..from_u128; decimal digit counts (fast_digit_count all u32, fallback_digit_count/fast_log10). "
+              "Props/C03Tie equates the model's tables, per-radix constants and magic literals with Gen.IntTables / Gen.Sizes / Gen.Literals regenerated from the crate on every run. "
+              "Exclusion (finding, reported under C09): unsigned type + required '+' sign needs one byte more than buffer_size_const.")
 LEVEL_NOTE = "Trusted: Lean kernel; that Model.WriteInt mirrors the Rust (correspondence, ~2M ops); release-mode semantics (debug assertions not modelled); rustc."
 
 
